@@ -560,12 +560,38 @@ class Interp:
                 return V("mod", T("ext", r[1]), extra=("ext", r[1]))
             if r[0] == "assign":
                 node_ = r[2]
-                if isinstance(node_, (ast.Dict, ast.List, ast.Set)) or (isinstance(node_, ast.Call) and isinstance(node_.func, ast.Name) and node_.func.id in ("dict", "list", "set", "OrderedDict", "defaultdict")):
+                if (isinstance(node_, (ast.Dict, ast.List, ast.Set)) or (isinstance(node_, ast.Call) and isinstance(node_.func, ast.Name) and node_.func.id in ("dict", "list", "set", "OrderedDict", "defaultdict"))) and self._module_mutates(r[1], node_):
                     # a module-level mutable container consulted from inside a function: results may depend on
                     # what earlier calls left there (hidden state shared between calls)
                     self.event("shape-conflict", node_, st, what="hidden state: a module-level mutable container is read inside a function", a=type(node_).__name__, b="module global")
                 return self.eval_in_module(r[2], r[1], st)
         return vunk("resolved?")
+
+    def _module_mutates(self, module, value_node):
+        """is the module-level name bound to this container written to anywhere in its module (item store /
+        delete, mutating method, augmented assignment, `global`)? a container that is only read is a constant"""
+        tree = getattr(module, "tree", None) or getattr(module, "node", None)
+        if tree is None:
+            return True
+        names = set()
+        for s_ in getattr(tree, "body", []):
+            if isinstance(s_, (ast.Assign, ast.AnnAssign)) and getattr(s_, "value", None) is value_node:
+                for tg in (s_.targets if isinstance(s_, ast.Assign) else [s_.target]):
+                    if isinstance(tg, ast.Name):
+                        names.add(tg.id)
+        if not names:
+            return True
+        MUT = {"append", "extend", "insert", "pop", "popitem", "clear", "update", "setdefault", "remove", "add", "discard", "sort", "reverse", "__setitem__"}
+        for x_ in ast.walk(tree):
+            if isinstance(x_, ast.Global) and names & set(x_.names):
+                return True
+            if isinstance(x_, (ast.Subscript,)) and isinstance(x_.ctx, (ast.Store, ast.Del)) and isinstance(x_.value, ast.Name) and x_.value.id in names:
+                return True
+            if isinstance(x_, ast.AugAssign) and isinstance(x_.target, ast.Name) and x_.target.id in names:
+                return True
+            if isinstance(x_, ast.Call) and isinstance(x_.func, ast.Attribute) and x_.func.attr in MUT and isinstance(x_.func.value, ast.Name) and x_.func.value.id in names:
+                return True
+        return False
 
     def eval_in_module(self, node, module, st):
         fi = FunctionInfo(ast.Lambda(args=ast.arguments(posonlyargs=[], args=[], kwonlyargs=[], kw_defaults=[], defaults=[]), body=node), module)
